@@ -45,3 +45,28 @@ Proof. exact sem_origin_set. Qed.
 Check C05_origin_set : forall t, execute t (Decset [Origin]) = Ok (spec_home (t <| org := true |>)).
 Print Assumptions C05_origin_set.
 
+(** the other list forms (Proofs/ModeSem.v; second statement audit) *)
+(** DECRST lists *)
+Theorem C05_mode_lists_decrst : forall ms t, execute t (Decrst ms) = foldM (fun t1 m => execute t1 (Decrst [m])) ms t.
+Proof. exact execute_decrst_run. Qed.
+Check C05_mode_lists_decrst : forall ms t, execute t (Decrst ms) = foldM (fun t1 m => execute t1 (Decrst [m])) ms t.
+Print Assumptions C05_mode_lists_decrst.
+
+(** SM lists *)
+Theorem C05_mode_lists_sm : forall ms t, execute t (Sm ms) = foldM (fun t1 m => execute t1 (Sm [m])) ms t.
+Proof. exact execute_sm_run. Qed.
+Check C05_mode_lists_sm : forall ms t, execute t (Sm ms) = foldM (fun t1 m => execute t1 (Sm [m])) ms t.
+Print Assumptions C05_mode_lists_sm.
+
+(** RM lists *)
+Theorem C05_mode_lists_rm : forall ms t, execute t (Rm ms) = foldM (fun t1 m => execute t1 (Rm [m])) ms t.
+Proof. exact execute_rm_run. Qed.
+Check C05_mode_lists_rm : forall ms t, execute t (Rm ms) = foldM (fun t1 m => execute t1 (Rm [m])) ms t.
+Print Assumptions C05_mode_lists_rm.
+
+(** DECOM reset inside a list *)
+Theorem C05_origin_reset_in_list : forall ms1 ms2 t t', flag_modes ms2 -> execute t (Decrst (ms1 ++ Origin :: ms2)) = Ok t' -> org t' = false /\ cur_col t' = 0 /\ cur_row t' = 0 /\ pend t' = false /\ top t' = top t.
+Proof. exact decrst_origin_last. Qed.
+Check C05_origin_reset_in_list : forall ms1 ms2 t t', flag_modes ms2 -> execute t (Decrst (ms1 ++ Origin :: ms2)) = Ok t' -> org t' = false /\ cur_col t' = 0 /\ cur_row t' = 0 /\ pend t' = false /\ top t' = top t.
+Print Assumptions C05_origin_reset_in_list.
+
